@@ -92,7 +92,7 @@ def generate(rng, tier):
             'cut': cut,
             # after a first round of reads the caller edits the (public, mutable) properties dict of every channel in a way
             # that concerns scaling; whatever the library makes of that, dtype and len must go on describing what reads return
-            'edit': rng.choice([None] * 8 + ['status', 'linear'])}
+            'edit': rng.choice([None] * 8 + ['status', 'linear', 'channels-list'])}
 
 
 def same_dtype(dt, declared):
@@ -272,6 +272,14 @@ def execute(case):
             if case.get('edit') and not res.violations:
                 res.probe('caller-edited-properties')
                 for tf in (eager, lazy):
+                    if case['edit'] == 'channels-list':
+                        # the caller collects all channels in the list one group handed out (chs = g.channels(); chs += ...)
+                        groups = tf.groups()
+                        if groups:
+                            lst = groups[0].channels()
+                            for g in groups[1:]:
+                                lst += g.channels()
+                        continue
                     for g in tf.groups():
                         for c in g.channels():
                             if case['edit'] == 'status':
